@@ -104,16 +104,44 @@ static void sweep_load(long item)
 out:
         ENG_POLICY_OVERRIDE = NULL;
 }
+/* sweep (iii): lines made of one byte sequence that means something to terminals, modems or editors (byte order marks, "A/", ";", "+++", telnet and
+ * ANSI sequences): alone, repeated, in front of and behind a request; each of them is a non-blank line and owed one result code */
+static void sweep_lore(long item)
+{
+        const char *tok = LORE[item];
+        snprintf(mode, sizeof mode, "sweep: lines built from byte sequence #%ld of the terminal-lore dictionary", item);
+        w_begin();
+        struct cat_command *arr = w_group(2, false);
+        arr[0].name = xstr("+PING"); arr[0].run = h_run; arr[0].read = h_read;
+        arr[1].name = xstr("D"); arr[1].write = h_write; arr[1].implicit_write = true;
+        w_buffers(64, (item & 1) != 0, 32);
+        w_init((int)(item & 1));
+        in_reset();
+        for (int rep = 1; rep <= 3; rep++) for (int e = 0; e < 2; e++) for (int form = 0; form < 5; form++) {
+                if (form == 1) in_puts("AT+PING"); if (form == 2) in_puts("AT"); if (form == 4) in_puts("ATD");
+                for (int q = 0; q < rep; q++) in_puts(tok);
+                if (form == 3) in_puts("AT+PING");
+                in_puts(e ? "\r\n" : "\n");
+                if (form == 0) in_puts("AT+PING\n");
+        }
+        EP.p_event_step = 0; EP.p_handler_trigger = 0;
+        ENG_POLICY_OVERRIDE = ok_policy;
+        sch_eager(&RS); sch_eager(&WS);
+        classify_stream();
+        eng_run_history();
+        ENG_POLICY_OVERRIDE = NULL;
+        CNT("lore_sequences_swept");
+}
 struct case_budget chk_budget(const char *tier)
 {
-        struct case_budget b = { n_tables() + N_LOAD, strcmp(tier, "thorough") == 0 ? 8000000 : 200000 };
+        struct case_budget b = { n_tables() + N_LOAD + (long)N_LORE, strcmp(tier, "thorough") == 0 ? 8000000 : 200000 };
         return b;
 }
 void chk_run_case(uint64_t seed, long c, bool is_sweep)
 {
         (void)seed;
         eng_default_profile();
-        if (is_sweep) { if (c < n_tables()) sweep_case(c); else sweep_load(c - n_tables()); return; }
+        if (is_sweep) { if (c < n_tables()) sweep_case(c); else if (c < n_tables() + N_LOAD) sweep_load(c - n_tables()); else sweep_lore(c - n_tables() - N_LOAD); return; }
         snprintf(mode, sizeof mode, "random history");
         if (chance(30)) { EP.p_event_step = 0; EP.p_handler_trigger = 0; }
         if (chance(20)) EP.max_cmds = 40;
